@@ -235,6 +235,71 @@ func registerU256(ex *Explorer) {
 	}
 	ex.register(m("Lsh"), shift(true))
 	ex.register(m("Rsh"), shift(false))
+	ex.register(m("Uint64WithOverflow"), func(fr *frame, args []value) value {
+		c := fr.i.ctx
+		x := u256Load(args[0])
+		return tuple{mkScalar(c, types.Uint64, EMod(x, IntConst(two64))), mkScalar(c, types.Bool, Ge(x, IntConst(two64)))}
+	})
+	ex.register(m("SetAllOne"), func(fr *frame, args []value) value {
+		u256Store(fr.i.ctx, args[0], IntConst(new(big.Int).Sub(pow2(256), big1)))
+		return args[0]
+	})
+	ex.register(m("Not"), func(fr *frame, args []value) value {
+		u256Store(fr.i.ctx, args[0], Sub(IntConst(new(big.Int).Sub(pow2(256), big1)), u256Load(args[1])))
+		return args[0]
+	})
+	ex.register(m("Neg"), func(fr *frame, args []value) value {
+		u256Store(fr.i.ctx, args[0], Wrap(kU256, Sub(IntConst64(0), u256Load(args[1]))))
+		return args[0]
+	})
+	ex.register(m("BitLen"), func(fr *frame, args []value) value {
+		c := fr.i.ctx
+		x := u256Load(args[0])
+		if !x.isConst() {
+			x = IntConst(c.concretize(x))
+		}
+		return x.c.BitLen()
+	})
+	ex.register(m("Exp"), func(fr *frame, args []value) value {
+		c := fr.i.ctx
+		b, e := u256Load(args[1]), u256Load(args[2])
+		if !e.isConst() {
+			e = IntConst(c.concretize(e))
+		}
+		if b.isConst() {
+			u256Store(c, args[0], IntConst(kU256.wrapBig(new(big.Int).Exp(b.c, e.c, pow2(256)))))
+			return args[0]
+		}
+		if e.c.BitLen() > 6 {
+			unsupp("uint256.Exp of a symbolic base with a large exponent")
+		}
+		r := IntConst64(1)
+		for k := uint64(0); k < e.c.Uint64(); k++ {
+			r = Wrap(kU256, Mul(r, b))
+		}
+		u256Store(c, args[0], r)
+		return args[0]
+	})
+	fixedBytes := func(n int) func(fr *frame, args []value) value {
+		return func(fr *frame, args []value) value {
+			c := fr.i.ctx
+			x := u256Load(args[0])
+			if !x.isConst() {
+				x = IntConst(c.concretize(x))
+			}
+			bz := make([]byte, 32)
+			x.c.FillBytes(bz)
+			return array(bytesToValues(bz[32-n:]))
+		}
+	}
+	ex.register(m("Bytes32"), fixedBytes(32))
+	ex.register(m("Bytes20"), fixedBytes(20))
+	ex.register(m("SetFromBig"), func(fr *frame, args []value) value {
+		c := fr.i.ctx
+		t := bigTerm(args[1])
+		u256Store(c, args[0], Wrap(kU256, t))
+		return mkScalar(c, types.Bool, Or(Lt(t, IntConst64(0)), Ge(t, IntConst(pow2(256)))))
+	})
 	// signed (two's complement) comparisons
 	signed := func(x *Term) *Term { return Ite(Lt(x, IntConst(pow2(255))), x, Sub(x, IntConst(pow2(256)))) }
 	ex.register(m("Sgt"), cmp(func(x, y *Term) *Term { return Gt(signed(x), signed(y)) }))
